@@ -319,12 +319,32 @@ func (e *Exec) tagImplements(tag *Term, iface *types.Interface) *Term {
 func (e *Exec) typeAssert(fr *Frame, st *State, in *ssa.TypeAssert) Val {
 	c := e.c
 	x := e.operand(fr, st, in.X)
-	tag, word := x[0], x[1]
+	tag, word := e.peelIte(*st, x[0]), e.peelIte(*st, x[1])
 	var ok *Term
 	var val Val
+	alts := map[uint64]bool(nil)
+	if !tag.IsConst() {
+		alts = st.tagAlternatives(tag)
+	}
 	if it, isI := in.AssertedType.Underlying().(*types.Interface); isI {
 		if it.NumMethods() == 0 {
 			ok = c.Ne(tag, c.Const(64, 0))
+		} else if alts != nil {
+			var ds []*Term
+			all := true
+			for t := range alts {
+				T := e.P.typeOfTag(t)
+				if T != nil && types.Implements(T, it) {
+					ds = append(ds, c.Eq(tag, c.Const(64, t)))
+				} else {
+					all = false
+				}
+			}
+			if all {
+				ok = c.True
+			} else {
+				ok = c.Or(ds...)
+			}
 		} else {
 			ok = e.tagImplements(tag, it)
 		}
@@ -332,6 +352,9 @@ func (e *Exec) typeAssert(fr *Frame, st *State, in *ssa.TypeAssert) Val {
 	} else {
 		T := in.AssertedType
 		ok = c.Eq(tag, c.Const(64, e.P.tag(T)))
+		if alts != nil && !alts[e.P.tag(T)] {
+			ok = c.False
+		}
 		if pointerShaped(T) {
 			val = Val{c.Ite(ok, word, c.Const(64, 0))}
 		} else {
